@@ -341,6 +341,24 @@ func (e *env) directed(rng *rand.Rand) {
 		// an unsatisfiable byte range on existing content is a client mistake too
 		cases = append(cases, dc{"unsatisfiable-range", vh.Req{Method: "GET", URL: "/v2/r/blobs/" + presentBlob, H: map[string]string{"Range": "bytes=99999999-"}}, []string{"SIZE_INVALID", "BLOB_UNKNOWN", "UNSUPPORTED"}, any})
 	}
+	// a mount whose source name is outside the grammar must not reach storage: it cannot be answered "mounted" (201)
+	{
+		mb := []byte(fmt.Sprintf("mount source content %d", e.idx))
+		md := vh.DigestOf("sha256", mb)
+		if rs := vh.Do(e.srv, vh.Req{Method: "POST", URL: "/v2/other/blobs/uploads/?digest=" + md, Body: mb}); rs.Status == 201 {
+			for _, from := range []string{"other/../other", "./other", "other/", "other//", "other/.", "OTHER/../other", "%6fther/"} {
+				rq := vh.Req{Method: "POST", URL: "/v2/r/blobs/uploads/?mount=" + md + "&from=" + from}
+				rs := vh.Do(e.srv, rq)
+				e.observe(rq, rs, "", "directed:mount-from-outside-grammar")
+				e.r.Count("directed_conditions", 1)
+				if rs.Status == 201 {
+					e.viol("invalid-name-routed:mount-from", fmt.Sprintf("mount with from=%q (outside the repository name grammar) was answered 201: the name reached storage", from), rq, rs)
+				} else if loc := rs.H.Get("Location"); rs.Status == 202 && loc != "" {
+					vh.Do(e.srv, vh.Req{Method: "DELETE", URL: strings.SplitN(loc, "?", 2)[0]})
+				}
+			}
+		}
+	}
 	// a session that remembers a digest (mount fall-back) completed under another, correct digest: a client matter
 	if ms := vh.Do(e.srv, vh.Req{Method: "POST", URL: "/v2/r/blobs/uploads/?mount=" + absentD + "&from=other"}); ms.Status == 202 && ms.H.Get("Location") != "" {
 		body := []byte(fmt.Sprintf("other content %d", e.idx))
